@@ -67,7 +67,11 @@ impl<T: ?Sized> Mutex<T> {
     loop {
       h.yield_point("lock");
       match self.inner.try_lock() {
-        Ok(g) => return Ok(g),
+        Ok(g) => {
+          // a holder can be pre-empted inside its critical section: others then find the lock taken
+          h.yield_point("locked");
+          return Ok(g);
+        }
         Err(TryLockError::Poisoned(p)) => return Err(p),
         Err(TryLockError::WouldBlock) => h.block_retry("lock"),
       }
@@ -75,7 +79,11 @@ impl<T: ?Sized> Mutex<T> {
   }
   pub fn try_lock(&self) -> TryLockResult<MutexGuard<'_, T>> {
     yield_hook("try_lock");
-    self.inner.try_lock()
+    let r = self.inner.try_lock();
+    if r.is_ok() {
+      yield_hook("locked");
+    }
+    r
   }
   pub fn is_poisoned(&self) -> bool {
     self.inner.is_poisoned()
@@ -137,7 +145,10 @@ impl<T: ?Sized> RwLock<T> {
     loop {
       h.yield_point("write-lock");
       match self.inner.try_write() {
-        Ok(g) => return Ok(g),
+        Ok(g) => {
+          h.yield_point("write-locked");
+          return Ok(g);
+        }
         Err(TryLockError::Poisoned(p)) => return Err(p),
         Err(TryLockError::WouldBlock) => h.block_retry("write-lock"),
       }
